@@ -47,6 +47,10 @@ def gen_bounce_history(rng, idx, thorough, kind=None):
             key = ("vpfx-" + a) if dom == "virt.test" else ("spfx-" + a) if dom.endswith(".sub.test") else ("cpfx-" + a) if (cfgk == "vcatch" and dom != "local.test") else a
             outcomes[key] = rng.choice(["D", "D", "D", "K", "ZD", "GD", "Z" * 12])
         sender = rng.choice([b"bs%d@origin.test" % idx, b"bs%d@origin.test" % idx, b"", b"#@[]", b"list%d-owner-@lists.test-@[]" % idx])
+        if idx % 5 == 3:
+            # a long envelope sender (the info file is read through a 128-byte buffer: 127, 128, 254, 255, 256, 300, 900 bytes)
+            ln = [127, 128, 254, 255, 256, 300, 900][(idx // 5) % 7]
+            sender = b"bs%d-" % idx + b"l" * (ln - len(b"bs%d-@origin.test" % idx)) + b"@origin.test"
         messages.append({"body": b"Subject: b%d\n\noriginal body %d\n" % (idx, m), "sender": sender, "rcpts": rcpts})
     # what happens to the bounces themselves
     for s in ("bs%d@origin.test" % idx, "list%d-owner-@lists.test" % idx, dbto.decode()):
